@@ -453,8 +453,11 @@ class DznJsonAst:
         """"Start processing the preloaded Dezyne JSON AST and return the FileContents."""
         root = parse_root(self.ast)
         self._file_contents = FileContents()  # start afresh, do not accumulate on repeated calls
-        for element in root.elements:
-            self.parse_element(element, self._ns_trail)
+        try:
+            for element in root.elements:
+                self.parse_element(element, self._ns_trail)
+        except RecursionError as exc:
+            raise DznJsonError('the elements are nested too deeply to be processed') from exc
         return self.file_contents
 
     def parse_element(self, element, parent_ns: NamespaceTree):
